@@ -130,7 +130,7 @@ def execute(plan, ctx):
             if op["idl_given"]:
                 if list(back.idl[name]) != list(idl) or isinstance(back.idl[name], range) != isinstance(idl, range):
                     ctx.violation("c13.jackknife_import", "import_jackknife", "idl", "configuration list %r restored as %r" % (objs.idl_plain(idl), objs.idl_plain(back.idl[name])))
-            ctx.sig("jackknife", "idl" if op["idl_given"] else "noidl", "range" if isinstance(idl, range) else "list", "n<=8" if n <= 8 else "n>8")
+            ctx.sig("jackknife", "idl" if op["idl_given"] else "noidl", "range" if isinstance(idl, range) else "list", ncls(n), plan["specs"][i]["data"]["kind"])
         elif kind in ("boot_default", "boot_roundtrip_default"):
             samples = op.get("samples") if kind == "boot_default" else n + op["extra"]
             fn = os.path.join(d, "rng_%d.txt" % oi)
@@ -173,7 +173,7 @@ def execute(plan, ctx):
                         ctx.probe("partner_table_identical")
             if kind == "boot_roundtrip_default":
                 imp(ctx, pe, o, x, b, name, R, scale, "default")
-            ctx.sig("boot_default", "n%d" % min(n, 9), "s%s" % ("lt" if ns < n else "ge"), kind)
+            ctx.sig("boot_default", ncls(n), "s%s" % ("lt" if ns < n else ("eq" if ns == n else "gt")), kind, plan["specs"][i]["data"]["kind"], "perturbed" if ctx.faults.get("rng_perturb") else "fresh_rng")
         elif kind == "boot_explicit":
             rr = random.Random(kernel.H("table", op["seed"]))
             ns = op["samples"]
@@ -193,11 +193,15 @@ def execute(plan, ctx):
                 ctx.violation("c13.bootstrap_export", "export_bootstrap", "table_mutated", "the supplied random-number table was modified")
             if check_boot(ctx, o, x, b, R, ns, scale, op["table"]) and op["import"]:
                 imp(ctx, pe, o, x, b, name, R, scale, op["table"])
-            ctx.sig("boot_explicit", op["table"], "s%s" % ("lt" if ns < n else "ge"))
+            ctx.sig("boot_explicit", op["table"], "s%s" % ("lt" if ns < n else ("eq" if ns == n else "gt")), ncls(n), "import" if op["import"] else "export", "range" if isinstance(o.idl[name], range) else "list")
         ctx.compared += 1
         if objs.data_digest(o) != digests[i]:
             ctx.violation("c13.data_altered", kind, "-", "the observable's data changed")
             digests[i] = objs.data_digest(o)
+
+
+def ncls(n):
+    return "n5-8" if n <= 8 else ("n9-32" if n <= 32 else ("n33-128" if n <= 128 else "n>128"))
 
 
 def check_boot(ctx, o, x, b, R, ns, scale, disc):
